@@ -6,6 +6,7 @@ Case line:   <cs> <layout> { ; <op> }*        layout ::= size[p],size[p],...   (
        | M <idx> | V <idx> <off> <len> | Q | D
 The reference below is the SPECIFICATION of the property (concatenate the files in torrent order),
 written without looking at how the code walks files."""
+import bisect
 import itertools
 import os
 import random
@@ -20,6 +21,7 @@ def hx(b):
 def parse_layout(s):
     out = []
     for t in s.split(","):
+        t = t.split("@", 1)[0]          # loader-driven cases carry "@path"; the layout is the torrent-order list
         pad = t.endswith("p")
         out.append((int(t[:-1] if pad else t), pad))
     return out
@@ -31,6 +33,8 @@ def layout_str(lay):
 
 def parse_case(line):
     toks = line.split()
+    if toks and toks[0] == "T":
+        toks = toks[1:]
     cs, lay = int(toks[0]), parse_layout(toks[1])
     ops, cur = [], []
     for t in toks[2:]:
@@ -46,7 +50,8 @@ def parse_case(line):
 
 
 class Ref:
-    """Specification-level reference: one flat byte stream, files are consecutive windows of it."""
+    """Specification-level reference: one flat byte stream, files are consecutive windows of it.
+    The stream image is sparse (dict, default 0) so multi-GiB layouts cost nothing."""
 
     def __init__(self, cs, lay):
         self.cs, self.lay = cs, lay
@@ -56,25 +61,67 @@ class Ref:
             self.offs.append(o)
             o += s
         self.total = o
-        self.image = [0] * o              # flat torrent byte stream (padding positions stay 0)
+        self.image = {}                   # flat torrent byte stream (padding positions stay 0)
         self.sized = [False] * len(lay)   # file has been ftruncated to its size
         self.npieces = (o + cs - 1) // cs
-        self.marked = set()
+        self.bits = set()                 # completed bitfield
+        self.fexp = [0] * len(lay)        # expected File::completed_chunks
+        self._ne = [i for i, (s, _) in enumerate(lay) if s > 0]
+        self._neoffs = [self.offs[i] for i in self._ne]
 
     def locate(self, g):
         """the unique (file, offset) holding global byte g"""
-        hits = [(i, g - self.offs[i]) for i, (s, _) in enumerate(self.lay) if self.offs[i] <= g < self.offs[i] + s]
-        assert len(hits) == 1, (g, hits)
-        return hits[0]
+        k = bisect.bisect_right(self._neoffs, g) - 1
+        i = self._ne[k]
+        assert k >= 0 and self.offs[i] <= g < self.offs[i] + self.lay[i][0], g
+        return (i, g - self.offs[i])
 
     def piece_size(self, i):
         return min(self.cs, self.total - i * self.cs)
+
+    def get(self, g):
+        return self.image.get(g, 0)
 
     def file_image(self, i):
         s, pad = self.lay[i]
         if pad:
             return None
-        return self.image[self.offs[i]:self.offs[i] + s] if self.sized[i] else []
+        return [self.get(self.offs[i] + t) for t in range(s)] if self.sized[i] else []
+
+    # ---- per-file completed-chunk accounting
+    def overlaps(self, j, p):
+        s = self.lay[j][0]
+        return s > 0 and self.offs[j] < (p + 1) * self.cs and p * self.cs < self.offs[j] + s
+
+    def clean(self, j):
+        """files whose counter the property pins down exactly: non-empty and not starting exactly on
+        a piece boundary (other than stream offset 0 ... of piece 0)"""
+        s = self.lay[j][0]
+        return s > 0 and (self.offs[j] % self.cs != 0 or self.offs[j] == 0)
+
+    def r2(self, j):
+        s = self.lay[j][0]
+        return self.offs[j] // self.cs if s == 0 else (self.offs[j] + s + self.cs - 1) // self.cs
+
+    def counted(self, j, p):
+        """does completing piece p increment file j's counter.  For clean files this IS 'file j
+        overlaps piece p'.  KNOWN QUIRK of FileList::inc_completed (kept as the code has it, see
+        DESIGN.md section 8, C02 note): the file that starts exactly at the END of piece p is also
+        incremented, and so are the empty files the walk passes on the way."""
+        if self.clean(j):
+            return self.overlaps(j, p)
+        return self.r2(j) > p and (j == 0 or self.r2(j - 1) <= p + 1)
+
+    def mark(self, p):
+        self.bits.add(p)
+        for j in range(len(self.lay)):
+            self.fexp[j] += self.counted(j, p)
+
+    def recount(self):
+        if len(self.bits) == self.npieces:
+            self.fexp = [(self.r2(j) - self.offs[j] // self.cs) for j in range(len(self.lay))]
+        else:
+            self.fexp = [sum(self.counted(j, p) for p in self.bits) for j in range(len(self.lay))]
 
 
 def oracle(case, line):
